@@ -304,6 +304,11 @@ def _check_instance_text(seed, i):
     words = ["District", "it has to survive unchanged", "a < b & c", "again", "50% of them", "x", "résumé"]
     n = rng.choice([2, 2, 3])
     exprs = [f"instance('dl9')/root/item[name = '{rng.choice('ab')}']/label" for _ in range(n)]
+    special = rng.random() < 0.25
+    if special:
+        # a comparison or an ampersand inside the predicate: the characters XML escapes
+        exprs[rng.randrange(n)] = rng.choice(["instance('dl9')/root/item[name < 'b']/label", "instance('dl9')/root/item[name = 'a' and 1 > 0]/label",
+                                              "instance('dl9')/root/item[label = 'A&B' or name = 'a']/label"])
     # an expression runs up to the next white space, so the words after it start with a space
     segs = [("" if k == 0 else " ") + rng.choice(words) + rng.choice([": ", " ", " -- "]) for k in range(n)] + [rng.choice([" .", " end", ""])]
     txt = "".join(seg + e for seg, e in zip(segs, exprs)) + segs[-1]
@@ -344,6 +349,10 @@ def _check_instance_text(seed, i):
                 seq.append(("O", c.get("value") or "") if isinstance(c.tag, str) and c.tag.endswith("output") else ("T", "<" + str(c.tag) + ">"))
                 seq.append(("T", c.tail or ""))
             if canon(seq) != canon(want):
+                esc = lambda t: t.replace("&", "&amp;").replace("<", "&lt;").replace(">", "&gt;")      # noqa: E731
+                if special and canon(seq) == [(k, esc(v) if k == "O" else v) for k, v in canon(want)]:
+                    return {"i": i, "form": form, "finding": F_TWICE,
+                            "what": "an instance() expression holding <, > or & inside a label reaches the output value escaped twice (&amp;lt; for <): the text around it is intact"}
                 return {"i": i, "form": form, "what": f"text with {n} instance() expressions not recovered (conversion {attempt + 1} in this process): got {canon(seq)} expected {canon(want)}"[:900],
                         "xform": r.xform[:2500]}
     return {"i": i, "ok": True, "n": 2, "refs": n, "key": hash(txt + str(two_langs))}
@@ -426,13 +435,29 @@ def oracle(seed, tier, searching=False):
                 "with the source after the documented normalisation; the element/attribute skeleton is compared with the same "
                 "form holding plain words; non-trivial = at least one cell mixes text and a reference",
         "accepted": len(oks), "cells_checked": sum(r["n"] for r in oks), "skipped": skips,
-        "failures": [{"input": {"form": f["form"], "case": f["i"]}, "what": f["what"], "observed": f.get("xform"),
+        "failures": [{"input": {"form": f["form"], "case": f["i"]}, "what": f["what"], "observed": f.get("xform"), "finding": f.get("finding"),
                       "reproduce": "cd /verif && /venv/bin/python harness/check.py C06 --replay <this file>"} for f in fails],
         "samples": [{"oracle_case": r["i"], "cells": r["n"], "cells_with_refs": r["refs"]} for r in oks[:3]],
     }
 
 
+F_TWICE = "F77-instance-expression-escaped-twice"
+FINDING_INPUTS = {F_TWICE: {"survey": [{"type": "select_one dl9", "name": "pick", "label": "Pick"},
+                                       {"type": "note", "name": "n1", "label": "Below b: instance('dl9')/root/item[name < 'b']/label"}],
+                            "choices": [{"list_name": "dl9", "name": "a", "label": "A"}, {"list_name": "dl9", "name": "b", "label": "B"}]}}
+
+
 def replay_finding(slug):
+    form = FINDING_INPUTS.get(slug)
+    if not form:
+        return None
+    st, r = xf.convert_form(forms.as_dict(form))
+    if st != "ok":
+        return None
+    root = xf.lparse(r.xform)
+    vals = [o.get("value") for o in root.iter(xf.XF + "output")]
+    if any("&lt;" in (v or "") for v in vals):      # after parsing: the expression holds the five characters & l t ; instead of <
+        return {"input": {"form": form}, "finding": slug, "what": f"output value after parsing: {vals[0]!r}; typed: instance('dl9')/root/item[name < 'b']/label"}
     return None
 
 
